@@ -1616,3 +1616,11 @@ benign_patch("refactor_s12_F_09", "benign/set12_F_09_pick_level_loop_break_named
 benign_patch("refactor_s12_F_10", "benign/set12_F_10_build_group_commit_batch_first_batch_match.diff", note='DB::build_group_commit_batch (src/db.rs) (older anchors, set F)')
 mut("smallest_snapshot_then_else_takes_newest", ["C03", "C07"], "ORD-7|compaction::worker::CompactionWorker::compact_tables", patch="smallest_snapshot_then_else_takes_newest.diff",
     note="`snapshots.is_empty().then(|| last).unwrap_or_else(|| newest)`: the newest snapshot for the oldest one in the combinator form (wrong twin of benign set E #07)")
+
+# ---- directly called local helper closures are inlined (inline.py): set E #03 / #06 and their wrong twins
+benign_patch("refactor_s12_E_03", "benign/set12_E_03_make_room_for_write_l0_trigger_helper_closure.diff", note="DB::make_room_for_write: `let has_reached_l0_trigger = |t| n >= t;` called for the slow-down test (a directly called helper closure, set E)")
+benign_patch("refactor_s12_E_06", "benign/set12_E_06_convert_memtable_to_file_mark_table_in_use_helper_closure.diff", note="DB::convert_memtable_to_file: tables_in_use.insert routed through a directly called helper closure (set E)")
+mut("helper_closure_registers_another_table_number", ["C11", "C03"], "ORD-13|db::DB::convert_memtable_to_file|register-before-build", patch="helper_closure_registers_another_table_number.diff",
+    note="the helper closure of set E #06 is called with file_number + 1: the table being built is not the registered one (decided through the inlined closure)")
+mut("helper_closure_stalls_below_the_due_threshold", ["C09"], "TRIG-1|db::DB::make_room_for_write|a-stalled-writer-has-a-due-compaction", patch="helper_closure_stalls_below_the_due_threshold.diff",
+    note="the helper closure of set E #03 is called with 2: writers are delayed at a level-0 count at which no compaction is due (decided through the inlined closure)")
